@@ -278,6 +278,11 @@ func checkC15(run *rt.Run, r *frun) bool {
 				// an unacknowledged write: nothing is claimed about it; the sink closed its file, the next
 				// write opens again (seen with an external rename that is not followed by Reopen).
 				run.Add("write_errors_not_judged", 1)
+				// ... but it does open again: a second failure in a row, with nothing done to the directory from
+				// outside in between, means the sink never gets to the new file the rule demands
+				if i > 0 && r.Steps[i-1].Op.Kind == "write" && r.Steps[i-1].Err != nil {
+					return bad("no-recovery-after-failed-rotation", fmt.Sprintf("step %d: the write fails (%v) right after a write that failed (%v), and nothing happened to the directory in between: the sink does not get to a new active file", i, st.Err, r.Steps[i-1].Err))
+				}
 				open = false
 				prev = st.Snap
 				continue
